@@ -3,11 +3,12 @@ package checks
 import (
 	"encoding/json"
 	"fmt"
-	"hash/fnv"
+	"math"
 	"math/big"
 	"sort"
 	"strings"
 
+	"go.1password.io/spg"
 	"verif/harness/core"
 	"verif/harness/ref"
 )
@@ -79,11 +80,12 @@ func c02Recipes(tier string) []ref.CharRecipe {
 	// complete first-candidate cell (2^16 leaves) plus the retries of its
 	// rejected candidates (behaviour that only starts at a length threshold)
 	out = append(out,
-		ref.CharRecipe{Length: 16, AllowChars: "a", RequireSets: []string{"0"}},
-		ref.CharRecipe{Length: 9, AllowChars: "ab", RequireSets: []string{"0"}},
+		ref.CharRecipe{Length: 12, AllowChars: "a", RequireSets: []string{"0"}},
+		ref.CharRecipe{Length: 8, AllowChars: "ab", RequireSets: []string{"0"}},
 	)
 	if tier == "thorough" {
 		out = append(out,
+			ref.CharRecipe{Length: 16, AllowChars: "a", RequireSets: []string{"0"}},
 			ref.CharRecipe{Length: 17, AllowChars: "a", RequireSets: []string{"0"}},
 			ref.CharRecipe{Length: 18, AllowChars: "a", RequireSets: []string{"0"}},
 			ref.CharRecipe{Length: 20, AllowChars: "a", RequireSets: []string{"0"}},
@@ -268,18 +270,151 @@ func mustJSON(v interface{}) string {
 	return string(b)
 }
 
+// c02RetryCoverage: long passwords, where complete cells are out of reach.
+// The default answer of every draw is a character that fails the requirement;
+// every execution in which exactly one draw deviates is run. Whatever single
+// draw supplies the required character, the result must be valid, and over
+// all those executions the required character must be able to land on every
+// position - also after one or more rejected candidates. A retry that reuses
+// part of a rejected candidate cannot do that.
+func c02RetryCoverage(c *core.Ctx, r ref.CharRecipe, need string) {
+	sr := toSpg(r)
+	ab := r.Alphabet()
+	lit := recipeLit(r)
+	key := "retry-coverage " + mustJSON(lit)
+	fail := uint32(0)
+	for i, ch := range ab {
+		if ch != need {
+			fail = uint32(i)
+		}
+	}
+	N := uint32(len(ab))
+	L := r.Length
+	posFirst := make([]bool, L) // required character seen at position j with no rejected candidate before
+	posRetry := make([]bool, L) // ... after at least one rejected candidate
+	bad := ""
+	oldT := spg.MaxTrials
+	spg.MaxTrials = 4 // the all-default stream fails every attempt; keep it short
+	oldR := spg.MaxFailRate
+	spg.MaxFailRate = 1
+	defer func() { spg.MaxTrials, spg.MaxFailRate = oldT, oldR }()
+	st := exploreCell(sr.Generate, CellOpt{DepthCut: 4*L + 4, Fallback: 2, MaxMenu: 4096, MaxLeaves: 200000, Dev: 1, Rot: func(n uint32) uint32 {
+		if n == N {
+			return fail
+		}
+		return 0
+	}}, func(l *Leaf) {
+		if bad != "" || l.Out.Aborted || !l.Out.HasPw {
+			return
+		}
+		chars := tokChars(l.Out.Toks)
+		if !r.Valid(chars) {
+			bad = fmt.Sprintf("returned %q, which the recipe does not allow", l.Out.Str)
+			return
+		}
+		for j, ch := range chars {
+			if ch == need {
+				if l.Tape.Words <= L {
+					posFirst[j] = true
+				} else {
+					posRetry[j] = true
+				}
+			}
+		}
+	})
+	c.Count("executions", st.Leaves)
+	c.Count("nodes", st.Nodes)
+	c.Count("edges", st.Edges)
+	c.Count("retry_coverage_recipes", 1)
+	if st.Capped || st.Uncalibrated || st.Unannounced > 0 {
+		c.Incomplete("retry coverage of %v not decided", lit)
+		return
+	}
+	if bad != "" {
+		c.Violation(key+" invalid", bad, map[string]interface{}{"recipe": lit, "mode": "retry-coverage", "need": need})
+		return
+	}
+	for j := 0; j < L; j++ {
+		if !posFirst[j] || !posRetry[j] {
+			when := "as part of the first candidate"
+			if posFirst[j] {
+				when = "after a rejected candidate"
+			}
+			c.Violation(key+" position", fmt.Sprintf("Length %d: the required character %q can never end up at position %d %s, whichever single draw supplies it (valid strings with it there are unreachable or disfavoured)", L, need, j, when),
+				map[string]interface{}{"recipe": lit, "mode": "retry-coverage", "need": need})
+			return
+		}
+	}
+	c.Outcome(fmt.Sprintf("retry coverage L=%d", L))
+}
+
 func c02Run(c *core.Ctx) {
+	lens := []int{2, 5, 8, 15, 16, 17, 31, 32, 33, 64, 65}
+	if c.Thorough() {
+		lens = append(lens, 100, 127, 128, 129, 199, 200, 256, 257)
+	}
+	for _, L := range lens {
+		for _, rr := range []struct {
+			r    ref.CharRecipe
+			need string
+		}{
+			{ref.CharRecipe{Length: L, AllowChars: "a", RequireSets: []string{"0"}}, "0"},
+			{ref.CharRecipe{Length: L, AllowChars: "abé", RequireSets: []string{"z"}}, "z"},
+			{ref.CharRecipe{Length: L, Allow: ref.Symbols, Require: ref.Digits, ExcludeChars: "123456789"}, "0"},
+		} {
+			if c.Mine() {
+				c02RetryCoverage(c, rr.r, rr.need)
+			}
+		}
+	}
 	if !charPairs(c) {
 		return
 	}
-	for _, r := range c02Recipes(c.Tier) {
-		// recipes that differ only in their required sets run in the same
-		// worker process, one after the other, so that state leaking from
-		// one recipe into the next (a cache with an incomplete key) shows
-		// up as a wrong distribution of the later one
-		h := fnv.New32a()
-		fmt.Fprintf(h, "%d|%s|%s|%d|%d", r.Length, r.AllowChars, r.ExcludeChars, r.Allow, r.Exclude)
-		if !c.MineKey(int(h.Sum32() % 9973)) {
+	// Recipes that differ only in their required sets form a group and run in
+	// the same worker process, one after the other, so that state leaking
+	// from one recipe into the next (a cache with an incomplete key) shows
+	// up as a wrong distribution of the later one. Groups are spread over
+	// the workers by estimated cost (largest first, to the least loaded).
+	all := c02Recipes(c.Tier)
+	type group struct {
+		key  string
+		cost float64
+		idx  []int
+	}
+	gmap := map[string]*group{}
+	var groups []*group
+	for i, r := range all {
+		k := fmt.Sprintf("%d|%s|%s|%d|%d", r.Length, r.AllowChars, r.ExcludeChars, r.Allow, r.Exclude)
+		g := gmap[k]
+		if g == nil {
+			g = &group{key: k}
+			gmap[k] = g
+			groups = append(groups, g)
+		}
+		n := float64(len(r.Alphabet()))
+		leaves := math.Pow(n, float64(r.Length))
+		g.cost += leaves*float64(r.Length)*(1+n) + 50
+		g.idx = append(g.idx, i)
+	}
+	sort.SliceStable(groups, func(i, j int) bool { return groups[i].cost > groups[j].cost })
+	load := make([]float64, c.NShards)
+	mine := map[int]bool{}
+	for _, g := range groups {
+		best := 0
+		for s := range load {
+			if load[s] < load[best] {
+				best = s
+			}
+		}
+		load[best] += g.cost
+		if best == c.Shard {
+			for _, i := range g.idx {
+				mine[i] = true
+			}
+		}
+	}
+	for i, r := range all {
+		if !mine[i] {
 			continue
 		}
 		if c.Expired() {
@@ -295,7 +430,7 @@ func init() {
 		ID:    "C02",
 		Level: "model_checking",
 		Rule: "for each recipe of the configuration set (custom strings over {a,b,c,é,1} with duplicates/overlaps, 0-2 required sets, lengths 1-3, class-sized cells) every combination of outcomes of every bounded draw of Generate is executed on the real code (complete cell, 1-3 candidates deep); " +
-			"exact rational probabilities per returned string; a recipe is non-trivial when its cell returns more than one distinct password; then every single-draw lift/reject deviation (F2)",
+			"exact rational probabilities per returned string; a recipe is non-trivial when its cell returns more than one distinct password; then every single-draw lift/reject deviation (F2); for lengths 2-65 (thorough 257) every execution in which exactly one draw supplies the required character, with a position-coverage oracle before and after rejected candidates",
 		Assume:      []string{"C01 (each bounded draw is uniform) turns leaf counts into probabilities", "canonical alphabet order (verif hook) is independent of the tape", "cells deeper than the candidate depth are cut and their mass accounted as cut mass"},
 		Run:         c02Run,
 		DistinctKey: "recipes_with_several_outputs",
